@@ -158,7 +158,7 @@ Definition decide_lattice (layer : bool) (r : lattice_raw) : option bool :=
                     end)
                    (r_omin r) (r_omax r)
                    (py_in (r_interp r) [VStr "hypercube"; VStr "simplex"]) in
-      Some (if layer then accepts_lattice_layer c else accepts_lattice_constraints c)
+      Some (if layer then accepts_lattice_layer c else accepts_lattice_constraints_obj c)
   | _, _, _, _ => Some false
   end.
 
